@@ -17,7 +17,7 @@ import itertools
 import math
 from fractions import Fraction
 
-from vlib.core import Acc
+from vlib.smallest import SmallestAcc as Acc
 
 INF = float("inf")
 
@@ -379,6 +379,15 @@ def check_constructor(params):
 # -- shards ----------------------------------------------------------------------------
 
 
+DEFAULTS = {"minimum": -INF, "maximum": INF, "granularity": 1, "surplus": INF,
+            "backlog": INF}
+
+
+def unusual(params):
+    """How many parameters differ from the defaults of the constructor"""
+    return sum(1 for name in PARAMETERS if params[name] != DEFAULTS[name])
+
+
 def shard_constructor(_):
     acc = Acc()
     for values in itertools.product(*(CONSTRUCTOR_GRID[name] for name in PARAMETERS)):
@@ -390,7 +399,8 @@ def shard_constructor(_):
         acc.outcome(("constructor", tuple(reasons)))
         acc.count("constructor-rejected" if reasons else "constructor-accepted")
         if problem:
-            acc.violation(problem[0], problem[1], {"kind": "constructor", "params": params})
+            acc.violation(problem[0], problem[1], {"kind": "constructor", "params": params},
+                          size=(0, unusual(params)))
     return acc
 
 
@@ -400,7 +410,8 @@ def shard_bfs(args):
     acc = Acc()
     problem = check_constructor(params)
     if problem:
-        acc.violation(problem[0], problem[1], {"kind": "constructor", "params": params})
+        acc.violation(problem[0], problem[1], {"kind": "constructor", "params": params},
+                      size=(0, unusual(params)))
         return acc
     if documented_rejection(params):
         acc.count("grid-combination-rejected")
@@ -421,7 +432,8 @@ def shard_bfs(args):
                         acc.case()
                         if problem:
                             acc.violation("increments-differ", problem,
-                                          dict(base, kind="increments", hist=hist, n=count))
+                                          dict(base, kind="increments", hist=hist, n=count),
+                                          size=(len(hist) + count, unusual(params)))
                 for op in ops:
                     step = check_step(params, supply0, hist, op, info)
                     acc.transitions += 1
@@ -439,7 +451,8 @@ def shard_bfs(args):
                         text = "; ".join(text for _, text in step.problems)
                         acc.violation(step.problems[0][0], "%r, supply %r, history %r: %s"
                                       % (params, supply0, hist + [op], text),
-                                      dict(base, hist=hist + [op]))
+                                      dict(base, hist=hist + [op]),
+                                      size=(len(hist) + 1, unusual(params)))
                         continue  # a broken state is not explored further
                     if step.key not in seen:
                         seen.add(step.key)
@@ -462,7 +475,9 @@ def run(ctx):
     shards = [("constructor",)]
     for values in itertools.product(*(grid[name] for name in PARAMETERS)):
         shards.append(("bfs", dict(zip(PARAMETERS, values)), depth, ctx.tier))
+    ctx.acc = Acc()
     ctx.pmap(shard, shards)
+    ctx.acc.settle()  # per key, the shortest history on the fewest non-default parameters
     ctx.meta.update(
         rule="BFS over operation histories up to the depth bound, for every constructor "
              "combination of the grid x every initial supply; successors of a state: every "
